@@ -46,3 +46,14 @@ theorem C18_lines_mapping (val : Nat → Int) (order : List Nat) (parentH : Opti
 theorem C18_lines_count (val : Nat → Int) (order : List Nat) (parentH : Option Int) (t : Tree) :
     (Plot.lines val order parentH t).length = (pre t).length + ((pre t).filter (fun s => !s.isLeaf)).length :=
   P15.lines_count val order parentH t
+
+/-- **C18 (no lines cross).** Structures that are not in ancestor relation have disjoint leaf sets —
+with contiguity and distinct leaf positions their leaf intervals are disjoint — and a child's
+vertical line lies within its parent's horizontal span. -/
+theorem C18_disjoint_subtrees (f : List Tree) (hids : ((preL f).map Tree.id).Nodup) (t t' : Tree)
+    (ht : t ∈ preL f) (ht' : t' ∈ preL f) (hdis : t ∉ pre t' ∧ t' ∉ pre t) :
+    ∀ x ∈ P15.leafIds t, x ∉ P15.leafIds t' :=
+  P31.disjoint_subtrees_disjoint_leaves (fun _ => 0) false f hids t t' ht ht' hdis
+theorem C18_child_within_span (order : List Nat) (ks : List Tree) (c : Tree) (hc : c ∈ ks) :
+    Plot.minQ' (Plot.posL order ks) ≤ Plot.pos order c ∧ Plot.pos order c ≤ Plot.maxQ' (Plot.posL order ks) :=
+  P31.child_within_span order 0 [] ks c hc
